@@ -50,14 +50,16 @@ func (t *timeComp) one(value []byte) (res string) {
 }
 
 func (t *timeComp) Impl(c Case) []string {
+	fresh := newTimeComp() // one transform instance per case, so that a case replays exactly
 	out := make([]string, len(c.Ops))
 	for i, o := range c.Ops {
-		out[i] = t.one(o.Bytes[0])
+		out[i] = fresh.one(o.Bytes[0])
 	}
 	return out
 }
 
-var rfc3339Shape = regexp.MustCompile(`^\d{4}-\d{2}-\d{2}T\d{2}:\d{2}:\d{2}(\.\d{1,9})?(Z|[+-]\d{2}:?\d{2})$`)
+// valid RFC 3339 date-time: offset hours 00-23, minutes 00-59 (time.Parse itself also tolerates 24 and 60)
+var rfc3339Shape = regexp.MustCompile(`^\d{4}-\d{2}-\d{2}T\d{2}:\d{2}:\d{2}(\.\d{1,9})?(Z|[+-]([01]\d|2[0-3]):?[0-5]\d)$`)
 
 func sepOK(v []byte) bool {
 	return len(v) >= 19 && v[4] == '-' && v[7] == '-' && v[10] == 'T' && v[13] == ':' && v[16] == ':'
@@ -94,6 +96,9 @@ func (t *timeComp) Oracle(c Case, impl []string) string {
 }
 
 func (t *timeComp) Class(c Case, impl []string) string {
+	if len(c.Ops) > 1 {
+		return fmt.Sprintf("sequence-%d", len(c.Ops))
+	}
 	v := c.Ops[0].Bytes[0]
 	switch {
 	case len(v) == 0:
@@ -204,6 +209,22 @@ func (t *timeComp) Generate(rng *rand.Rand, n int, emit func(Case)) {
 		}
 	}
 	rec(nil)
+	// sequences through one transform instance: repeats of the same good / bad values, interleaved
+	seqVals := []string{"", "-", "2019-08-15T15:50:46Z", "2019-08-15T15:50:46-03:30", "bad", "2019-08-15T15:50:46.5+0230", "2019X08-15T15:50:46Z"}
+	for i := 0; i < n/20+20; i++ {
+		var ops []Op
+		l := 2 + rng.Intn(6)
+		for j := 0; j < l; j++ {
+			v := seqVals[rng.Intn(len(seqVals))]
+			if j > 0 && rng.Intn(2) == 0 {
+				v = string(ops[j-1].Bytes[0])
+			} else if rng.Intn(4) == 0 {
+				v = randTimestamp(rng)
+			}
+			ops = append(ops, Op{Name: "time xform", Bytes: [][]byte{[]byte(v)}})
+		}
+		emit(Case{Ops: ops, Tag: "sequence"})
+	}
 	for i := 0; i < n; i++ {
 		switch i % 4 {
 		case 0, 1:
